@@ -422,10 +422,13 @@ func (s *shard) repair(ctx context.Context, id []byte, property *propertyv1.Prop
 
 	// if the lastest property in shard is bigger than the repaired property,
 	// then the repaired process should be stopped.
-	if (olderProperties[len(olderProperties)-1].timestamp > property.Metadata.ModRevision) ||
-		olderProperties[len(olderProperties)-1].timestamp == property.Metadata.ModRevision &&
-			olderProperties[len(olderProperties)-1].deleteTime == deleteTime {
-		return false, olderProperties[len(olderProperties)-1], nil
+	// A local tombstone of the same revision is also newer than a live copy of it:
+	// the delete happened after that revision was applied, so it must not be resurrected.
+	latest := olderProperties[len(olderProperties)-1]
+	if (latest.timestamp > property.Metadata.ModRevision) ||
+		latest.timestamp == property.Metadata.ModRevision &&
+			(latest.deleteTime == deleteTime || (latest.deleteTime > 0 && deleteTime == 0)) {
+		return false, latest, nil
 	}
 
 	docIDList := s.buildNotDeletedDocIDList(olderProperties)
